@@ -1,71 +1,80 @@
 // C16 — The session table stays consistent under any sequence of operations (stateful, model-based).
 #include "rcx.hpp"
 
-// ops: 1 add(key, seq) 2 find(key, seq) 3 remove(key) 4 clear 5 set_complete(key, flag)+status update 6 tick 7 advance(s)
-struct MEntry { uint16_t seq; bool complete; uint64_t last; };
+// ops: 1 add(key, seq, table) 2 find(key, seq, table) 3 remove(key, table) 4 clear(table) 5 set_complete(key, flag, table)+status update
+//      6 tick(table) 7 advance(ms)            -- two independent tables: whatever one does must not influence the other
+struct MEntry { uint16_t seq; bool complete; uint64_t last_ms; };
 using Key = std::pair<uint64_t, uint16_t>;   // (mac, generation)
 
-static Key key_of(int k) { static const uint16_t gens[3] = {7, 0, 0x0101}; return {0x02AA00000000ULL + (uint64_t)(k % 8), gens[(k / 8) % 3]}; }   // 24 keys: 8 addresses x 3 generations (one of them 0)
+static Key key_of(int k) {
+    // 8 addresses x 3 generations; the addresses include pairs that differ in a single byte (first, second, last), high bytes >= 0x80, all-ones-but-one and near-zero
+    static const uint64_t macs[8] = {0x02AABB000001ULL, 0x03AABB000001ULL, 0x02ABBB000001ULL, 0x02AABB000002ULL, 0xFFFFFFFFFFFEULL, 0x000000000001ULL, 0x02AABBCCDDEEULL, 0x82AABBCCDDEEULL};
+    static const uint16_t gens[3] = {7, 0, 0x0101};
+    return {macs[k % 8], gens[(k / 8) % 3]};
+}
 
 static Verdict run(const Case &c) {
     Verdict v;
     World w;
-    uint64_t now = 1000;   // seconds
-    vp_set_now_ms(now * 1000);
-    void *t = br_st_create();
+    uint64_t now = 1000000 + (uint64_t)(c.c(0) % 1000);   // milliseconds; the starting fraction of a second varies per case
+    vp_set_now_ms(now);
+    void *T[2] = {br_st_create(), br_st_create()};
     const int CAP = br_st_capacity();
     if (CAP != 16) v.fail(fmt("table capacity is %d, documented 16", CAP));
-    std::map<Key, MEntry> model;
-    int full_adds = 0, partial_expiries = 0, refreshes = 0, maxlive = 0;
-    auto snapshot = [&] { return Bytes((const uint8_t *)br_st_raw(t), (const uint8_t *)br_st_raw(t) + br_st_sizeof()); };
+    std::map<Key, MEntry> M[2];
+    int full_adds = 0, partial_expiries = 0, refreshes = 0, maxlive = 0, both_tables = 0;
+    auto snapshot = [&](int t) { return Bytes((const uint8_t *)br_st_raw(T[t]), (const uint8_t *)br_st_raw(T[t]) + br_st_sizeof()); };
     auto invariants = [&](size_t i, const char *after) {
-        // number of valid entries == count == |model| <= 16 ; no duplicate keys ; fields match ; empty / all_complete flags
-        std::map<Key, br_entry> live;
-        int valid = 0;
-        for (int k = 0; k < CAP; k++) {
-            br_entry e; br_st_get(t, k, &e);
-            if (!e.valid) continue;
-            valid++;
-            Key key = {mac_to_u64(getmac(e.mac)), e.generation};
-            if (!live.insert({key, e}).second) { v.fail(fmt("step %zu (%s): two live entries for the same (mapper, generation)", i, after)); return; }
-        }
-        if (valid != (int)model.size()) { v.fail(fmt("step %zu (%s): %d live entries, model has %zu", i, after, valid, model.size())); return; }
-        if ((int)br_st_count(t) != valid) { v.fail(fmt("step %zu (%s): count field %u != %d live entries", i, after, br_st_count(t), valid)); return; }
-        if (valid > CAP) { v.fail("more live entries than capacity"); return; }
-        bool allc = true;
-        for (auto &kv : model) {
-            auto it = live.find(kv.first);
-            if (it == live.end()) { v.fail(fmt("step %zu (%s): session (%012llx, %u) missing", i, after, (unsigned long long)kv.first.first, kv.first.second)); return; }
-            if (it->second.seq != kv.second.seq || (it->second.complete != 0) != kv.second.complete || it->second.last_activity != kv.second.last) {
-                v.fail(fmt("step %zu (%s): session (%012llx, %u) has seq %u complete %d activity %llu, model says %u %d %llu", i, after, (unsigned long long)kv.first.first, kv.first.second,
-                           it->second.seq, it->second.complete, (unsigned long long)it->second.last_activity, kv.second.seq, kv.second.complete, (unsigned long long)kv.second.last));
-                return;
+        for (int tb = 0; tb < 2 && v.ok; tb++) {
+            void *t = T[tb];
+            auto &model = M[tb];
+            std::map<Key, br_entry> live;
+            int valid = 0;
+            for (int k = 0; k < CAP; k++) {
+                br_entry e; br_st_get(t, k, &e);
+                if (!e.valid) continue;
+                valid++;
+                Key key = {mac_to_u64(getmac(e.mac)), e.generation};
+                if (!live.insert({key, e}).second) { v.fail(fmt("step %zu (%s): table %d has two live entries for the same (mapper, generation)", i, after, tb)); return; }
             }
-            if (!kv.second.complete) allc = false;
+            if (valid != (int)model.size()) { v.fail(fmt("step %zu (%s): table %d has %d live entries, model has %zu", i, after, tb, valid, model.size())); return; }
+            if ((int)br_st_count(t) != valid) { v.fail(fmt("step %zu (%s): table %d count field %u != %d live entries", i, after, tb, br_st_count(t), valid)); return; }
+            for (auto &kv : model) {
+                auto it = live.find(kv.first);
+                if (it == live.end()) { v.fail(fmt("step %zu (%s): table %d: session (%012llx, %u) missing", i, after, tb, (unsigned long long)kv.first.first, kv.first.second)); return; }
+                if (it->second.seq != kv.second.seq || (it->second.complete != 0) != kv.second.complete || it->second.last_activity != kv.second.last_ms / 1000) {
+                    v.fail(fmt("step %zu (%s): table %d: session (%012llx, %u) has seq %u complete %d activity %llu s, model says %u %d %llu s", i, after, tb, (unsigned long long)kv.first.first, kv.first.second,
+                               it->second.seq, it->second.complete, (unsigned long long)it->second.last_activity, kv.second.seq, kv.second.complete, (unsigned long long)(kv.second.last_ms / 1000)));
+                    return;
+                }
+            }
+            if ((br_st_is_empty(t) != 0) != model.empty()) { v.fail(fmt("step %zu (%s): table %d: is_empty reports %d with %zu live sessions", i, after, tb, br_st_is_empty(t), model.size())); return; }
+            maxlive = std::max(maxlive, valid);
         }
-        if ((br_st_is_empty(t) != 0) != model.empty()) { v.fail(fmt("step %zu (%s): is_empty reports %d with %zu live sessions", i, after, br_st_is_empty(t), model.size())); return; }
-        maxlive = std::max(maxlive, valid);
-        (void)allc;
+        if (!M[0].empty() && !M[1].empty()) both_tables = 1;
     };
-    auto check_all_complete = [&](size_t i, const char *after) {   // meaningful right after a status update / add / remove / clear / tick
+    auto check_all_complete = [&](size_t i, const char *after, int tb) {
         bool allc = true;
-        for (auto &kv : model) if (!kv.second.complete) allc = false;
-        if ((br_st_all_complete(t) != 0) != allc) v.fail(fmt("step %zu (%s): all_complete reports %d, live sessions imply %d", i, after, br_st_all_complete(t), allc));
+        for (auto &kv : M[tb]) if (!kv.second.complete) allc = false;
+        if ((br_st_all_complete(T[tb]) != 0) != allc) v.fail(fmt("step %zu (%s): table %d: all_complete reports %d, live sessions imply %d", i, after, tb, br_st_all_complete(T[tb]), allc));
     };
     for (size_t i = 0; i < c.ops.size() && v.ok; i++) {
         const Op &op = c.ops[i];
         Key k = key_of((int)(op.arg(0) % 24 + 24) % 24);
         Mac m = mac_from_u64(k.first);
         uint16_t seq = (uint16_t)op.arg(1);
+        int tb = (int)(op.arg(2) & 1);
+        void *t = T[tb];
+        auto &model = M[tb];
         switch (op.kind) {
             case 1: {
-                Bytes before = snapshot();
+                Bytes before = snapshot(tb), other_before = snapshot(1 - tb);
                 void *e = br_st_add(t, m.b, k.second, seq);
                 auto it = model.find(k);
                 if (it != model.end()) {
                     refreshes++;
                     if (!e) { v.fail(fmt("step %zu: adding a known session returned NULL", i)); break; }
-                    it->second.seq = seq; it->second.last = now;
+                    it->second.seq = seq; it->second.last_ms = now;
                 } else if ((int)model.size() < CAP) {
                     if (!e) { v.fail(fmt("step %zu: add failed with %zu live sessions", i, model.size())); break; }
                     model[k] = MEntry{seq, false, now};
@@ -74,10 +83,11 @@ static Verdict run(const Case &c) {
                 } else {
                     full_adds++;
                     if (e) { v.fail(fmt("step %zu: add to a full table returned an entry", i)); break; }
-                    if (snapshot() != before) { v.fail(fmt("step %zu: failed add disturbed the table", i)); break; }
+                    if (snapshot(tb) != before) { v.fail(fmt("step %zu: failed add disturbed the table", i)); break; }
                 }
+                if (v.ok && snapshot(1 - tb) != other_before) v.fail(fmt("step %zu: add on table %d changed table %d", i, tb, 1 - tb));
                 invariants(i, "add");
-                if (v.ok) check_all_complete(i, "add");
+                if (v.ok) check_all_complete(i, "add", tb);
                 break;
             }
             case 2: {
@@ -88,8 +98,8 @@ static Verdict run(const Case &c) {
                 invariants(i, "find");
                 break;
             }
-            case 3: br_st_remove(t, m.b, k.second); model.erase(k); invariants(i, "remove"); if (v.ok) check_all_complete(i, "remove"); break;
-            case 4: br_st_clear(t); model.clear(); invariants(i, "clear"); if (v.ok) check_all_complete(i, "clear"); break;
+            case 3: br_st_remove(t, m.b, k.second); model.erase(k); invariants(i, "remove"); if (v.ok) check_all_complete(i, "remove", tb); break;
+            case 4: br_st_clear(t); model.clear(); invariants(i, "clear"); if (v.ok) check_all_complete(i, "clear", tb); break;
             case 5: {
                 void *e = br_st_find(t, m.b, k.second, 0);
                 auto it = model.find(k);
@@ -97,27 +107,36 @@ static Verdict run(const Case &c) {
                 if (e) { br_entry_set_complete(e, (int)(op.arg(1) & 1)); it->second.complete = op.arg(1) & 1; }
                 br_st_update(t);
                 invariants(i, "set_complete");
-                if (v.ok) check_all_complete(i, "set_complete");
+                if (v.ok) check_all_complete(i, "set_complete", tb);
                 break;
             }
             case 6: {
                 br_tick(nullptr, nullptr, t, nullptr, nullptr, nullptr, 0);
                 size_t before = model.size();
-                for (auto it = model.begin(); it != model.end();) { if (now > it->second.last + 60) it = model.erase(it); else ++it; }
+                for (auto it = model.begin(); it != model.end() && v.ok;) {
+                    uint64_t idle = now - it->second.last_ms;
+                    Mac mm = mac_from_u64(it->first.first);
+                    bool there = br_st_find(t, mm.b, it->first.second, 0) != nullptr;
+                    // idle <= 60 s: must survive; idle >= 61 s: must be gone; in between (one-second granularity of the table's clock) either
+                    if (idle <= 60000 && !there) { v.fail(fmt("step %zu (tick): table %d: session idle for %llu ms was removed (only sessions idle for more than 60 s may be)", i, tb, (unsigned long long)idle)); break; }
+                    if (idle >= 61000 && there) { v.fail(fmt("step %zu (tick): table %d: session idle for %llu ms survived the tick", i, tb, (unsigned long long)idle)); break; }
+                    if (!there) it = model.erase(it); else ++it;
+                }
                 if (model.size() < before && !model.empty()) partial_expiries++;
-                invariants(i, "tick");
-                if (v.ok) check_all_complete(i, "tick");
+                if (v.ok) invariants(i, "tick");
+                if (v.ok) check_all_complete(i, "tick", tb);
                 break;
             }
-            case 7: now += (uint64_t)std::max<int64_t>(0, std::min<int64_t>(op.arg(0), 200)); vp_set_now_ms(now * 1000); break;
+            case 7: now += (uint64_t)std::max<int64_t>(0, std::min<int64_t>(op.arg(0), 200000)); vp_set_now_ms(now); break;
             default: break;
         }
     }
-    br_st_destroy(t);
+    br_st_destroy(T[0]); br_st_destroy(T[1]);
     v.nontrivial = full_adds > 0 || partial_expiries > 0;
     if (full_adds) v.cls("add-to-full-table");
     if (partial_expiries) v.cls("partial-expiry");
     if (refreshes) v.cls("refresh");
+    if (both_tables) v.cls("both-tables-populated");
     v.cls(fmt("maxlive-%s", maxlive == 16 ? "16" : maxlive >= 8 ? "8-15" : "0-7"));
     return v;
 }
@@ -125,25 +144,27 @@ static Verdict run(const Case &c) {
 int main(int argc, char **argv) {
     Args a = parse_args(argc, argv);
     if (!a.replay.empty()) return replay_case(a, run);
+    zygote_start(run);   // before any code under test runs in this process
     Current::install(a.failing);
     Evidence ev;
-    ev.rule = "operation sequences (length <= 200) of add/find/remove/clear/set-complete+status-update/expiry-tick/clock advance 0..200 s (weights on 0,59,60,61,120) over 24 keys (8 addresses x generations {7, 0, 0x0101}), "
-              "compared after every step with a dictionary model: live entries == count == |model| <= 16, unique keys, fields, is_empty, all_complete, failed add leaves the table bit-identical, expiry removes exactly the sessions idle > 60 s. "
+    ev.rule = "operation sequences (length <= 200) of add/find/remove/clear/set-complete+status-update/expiry-tick/clock advance 0..200 s in milliseconds (weights on the 59/60/61 s boundaries) over 24 keys (8 structured addresses x generations {7, 0, 0x0101}) on TWO independent tables, "
+              "compared after every step with a dictionary model per table: live entries == count == |model| <= 16, unique keys, fields, is_empty, all_complete, failed add leaves the table bit-identical, a tick removes no session idle <= 60 s and every session idle >= 61 s (the table's clock has one-second granularity), and never touches the other table. "
               "non-trivial = sequence that attempted an add on a full table or had an expiry removing some but not all sessions; distinct = digest of the sequence";
     auto gen = rc::gen::exec([] {
         Case c;
+        c.cfg = {*gx::range<int64_t>(0, 999)};
         int n = *gx::pick({10, 40, 80, 200, 200});
         c.ops = *rc::gen::resize(n, rc::gen::container<std::vector<Op>>(rc::gen::exec([] {
             Op o;
             int k = *gx::range<int>(0, 19);
-            int64_t key = *gx::range<int64_t>(0, 23);
-            if (k <= 8) { o.kind = 1; o.a = {key, *gx::bnd({0, 1, 0xFFFF}, 0, 0xFFFF, 1, 1)}; }
-            else if (k <= 10) { o.kind = 2; o.a = {key, *gx::range<int64_t>(0, 0xFFFF)}; }
-            else if (k <= 12) { o.kind = 3; o.a = {key}; }
-            else if (k == 13) { o.kind = *gx::chance(30) ? 4 : 2; o.a = {key, 0}; }
-            else if (k <= 15) { o.kind = 5; o.a = {key, *gx::pick({0, 1, 1})}; }
-            else if (k <= 17) { o.kind = 6; }
-            else { o.kind = 7; o.a = {*gx::bnd({0, 1, 59, 60, 61, 120}, 0, 200, 3, 1)}; }
+            int64_t key = *gx::range<int64_t>(0, 23), tb = *gx::pick({0, 0, 0, 1});
+            if (k <= 8) { o.kind = 1; o.a = {key, *gx::bnd({0, 1, 0xFFFF}, 0, 0xFFFF, 1, 1), tb}; }
+            else if (k <= 10) { o.kind = 2; o.a = {key, *gx::range<int64_t>(0, 0xFFFF), tb}; }
+            else if (k <= 12) { o.kind = 3; o.a = {key, 0, tb}; }
+            else if (k == 13) { o.kind = *gx::chance(30) ? 4 : 2; o.a = {key, 0, tb}; }
+            else if (k <= 15) { o.kind = 5; o.a = {key, *gx::pick({0, 1, 1}), tb}; }
+            else if (k <= 17) { o.kind = 6; o.a = {0, 0, tb}; }
+            else { o.kind = 7; o.a = {*gx::bnd({0, 1, 999, 1000, 59000, 59999, 60000, 60001, 60999, 61000, 61001, 120000}, 0, 200000, 3, 1)}; }
             return o;
         })));
         return c;
